@@ -150,9 +150,9 @@ func (v *modView) badness(f *FileSpec, rootUser bool) string {
 		}
 	}
 	c := f.Content
-	switch c.Class {
+	switch effClass(c) {
 	case "malformed", "nodef":
-		return c.Class
+		return effClass(c)
 	}
 	isInitTS := !isGlobalMod(v.m) && f.Rel == "types/init_typeset.pp"
 	if c.Class == "anon" {
@@ -352,11 +352,56 @@ func (v *modView) expectFound(name string, rootUser bool) bool {
 
 func fileKey(v *modView, f *FileSpec) string { return v.m.Dir + "/" + f.Rel }
 
-// dcheck evaluates all clauses on one case; returns the violations (with the case as replay input)
+// expectMarker: the marker of the definition that expectFound stands for (0: a TypeSet, or not decided - the name
+// has a file of its own and is a member of its parent's TypeSet as well)
+func (v *modView) expectMarker(name string, rootUser bool) int {
+	member := 0
+	if p := parentName(name); p != "" {
+		if rel, ok := derivedRel(v.m, p); ok {
+			if f := v.fileAt(rel); f != nil && v.badness(f, rootUser) == "" && f.Content.Class == "typeset" {
+				last := lowerASCII(name[len(p)+2:])
+				for j, m := range f.Content.Members {
+					if lowerASCII(m) == last && member == 0 {
+						member = f.Content.Marker + 1 + j
+					}
+				}
+			}
+		}
+	}
+	if rel, ok := derivedRel(v.m, name); ok {
+		if f := v.fileAt(rel); f != nil {
+			if member != 0 || v.badness(f, rootUser) != "" || f.Content.Class == "typeset" {
+				return 0
+			}
+			return f.Content.Marker
+		}
+	}
+	return member
+}
+
+// dcheck evaluates all clauses on one case, generation by generation: every generation is judged against the
+// layout its loaders were created on (what an earlier generation held at the same path is of no concern to it);
+// returns the violations (with the whole case as replay input)
 func dcheck(cs *Case, cr *CaseResult, rootUser bool, res *lib.Result) []lib.Violation {
+	vs := dcheckGen(cs, cs, cr, 0, rootUser, res)
+	if cr.Crash == "" {
+		for k := range cs.Then {
+			if k < len(cr.Then) {
+				vs = append(vs, dcheckGen(cs, &cs.Then[k], &cr.Then[k], k+1, rootUser, res)...)
+			}
+		}
+	}
+	return vs
+}
+
+func dcheckGen(top, cs *Case, cr *CaseResult, gen int, rootUser bool, res *lib.Result) []lib.Violation {
 	var vs []lib.Violation
+	pfx := ""
+	if gen > 0 {
+		pfx = fmt.Sprintf("generation %d (the directory was written again at the same path, new loaders): ", gen)
+	}
 	add := func(clause, what string, tags ...string) {
-		vs = append(vs, lib.Violation{Clause: clause, What: what, Input: cs, Tags: tags})
+		vs = append(vs, lib.Violation{Clause: clause, What: pfx + what, Input: top, Tags: tags})
 	}
 	if cr.Crash != "" {
 		add("no-runtime-fault", "the implementation crashed / hung while running this case: "+cr.Crash)
@@ -567,8 +612,8 @@ func dcheck(cs *Case, cr *CaseResult, rootUser bool, res *lib.Result) []lib.Viol
 						// loader in turn and caches its own "absent" while the member's TypeSet is still being resolved
 						tags = []string{"dep-loop-routed-typeset-member"}
 					}
-					vs = append(vs, lib.Violation{Clause: "found-iff-file", Input: cs, Tags: tags,
-						What: fmt.Sprintf("op %d load %q (context %d): answer %s, but a good definition at the derived path %s", i, name, op.Ctx, o.Kind,
+					vs = append(vs, lib.Violation{Clause: "found-iff-file", Input: top, Tags: tags,
+						What: pfx + fmt.Sprintf("op %d load %q (context %d): answer %s, but a good definition at the derived path %s", i, name, op.Ctx, o.Kind,
 							map[bool]string{true: "exists", false: "does not exist"}[nExp > 0])})
 				}
 			}
